@@ -45,6 +45,10 @@ pub struct Plan {
     /// so its total supply is not loaded and ledger-dependent checks are off); the work gate must hold there too
     #[serde(default)]
     pub mid_chain: bool,
+    /// work mode: one routed transaction whose fee is exactly one nolan below the requirement, at an offset
+    /// where burnfee / elapsed has a fractional part well above one half (the requirement rounds up there)
+    #[serde(default)]
+    pub boundary: bool,
 }
 
 const HB: u64 = 1000;
@@ -65,7 +69,8 @@ fn gen(seed: u64, tier: Tier) -> Plan {
         }
         dts.sort();
         let mid_chain = rng.chance(1, 4);
-        Plan { seed, mode: "work".into(), prefix: rng.range(1, 3) as usize, txs, dts, blocks: vec![], mid_chain }
+        let boundary = rng.chance(1, 5);
+        Plan { seed, mode: "work".into(), prefix: rng.range(1, 3) as usize, txs, dts, blocks: vec![], mid_chain, boundary }
     } else {
         let n = rng.range(4, if tier == Tier::Quick { 10 } else { 20 }) as usize;
         let gt_style = rng.below(3);
@@ -79,7 +84,7 @@ fn gen(seed: u64, tier: Tier) -> Plan {
                 (rng.range(1, 4) as usize, rng.below(80_000), rng.below(4) as usize, gt)
             })
             .collect();
-        Plan { seed, mode: "payout".into(), prefix: 0, txs: vec![], dts: vec![], blocks, mid_chain: false }
+        Plan { seed, mode: "payout".into(), prefix: 0, txs: vec![], dts: vec![], blocks, mid_chain: false, boundary: false }
     }
 }
 
@@ -171,7 +176,7 @@ impl Scenario for C08 {
     fn meta(&self) -> Meta {
         Meta {
             level: "exploration",
-            rule: "two families. work: parent chain of 1-3 blocks, then the same transaction set (1-6/8 payments, fee classes 0..150k nolan, path shapes valid-1/2/3 hops, none, not ending at the creator, passing through the creator but ending elsewhere, forged hop signature, non-contiguous, self-hop) bundled at two timestamp offsets drawn from {0.001, 0.05, 0.2, 0.5, 0.9, 1.5, 1.999, 2.0, 2.5} heartbeats (+jitter), each offered to a fresh replica. Oracle: accepted => every path cryptographically valid, contiguous, no self-hop; and for offset < 2 heartbeats independently computed work (u128, halving per hop after the first, only paths ending at the creator) >= parent_burnfee/offset - 1; acceptance at the smaller offset implies acceptance at the larger; offset >= 2 heartbeats needs no work. payout: histories of 4-10/20 blocks with routed fee-paying transactions and three ticket patterns; for every accepted block with a Fee transaction: each output goes to the ticket's key, to a hop recipient of a transaction in the blocks being paid (previous; and the one before when the previous had no ticket), or to the sender of a path-less transaction there; sum of outputs <= fees collected by those blocks (u128). distinct_nontrivial = distinct (offset bucket, path-shape multiset, margin sign) resp. (payout history digest).",
+            rule: "two families. work (a fifth of its runs: one routed transaction whose fee is exactly the integer part of parent burn fee / elapsed at an offset where the fraction is 0.6..0.95, i.e. one nolan below the rounded requirement - must be refused): parent chain of 1-3 blocks, then the same transaction set (1-6/8 payments, fee classes 0..150k nolan, path shapes valid-1/2/3 hops, none, not ending at the creator, passing through the creator but ending elsewhere, forged hop signature, non-contiguous, self-hop) bundled at two timestamp offsets drawn from {0.001, 0.05, 0.2, 0.5, 0.9, 1.5, 1.999, 2.0, 2.5} heartbeats (+jitter), each offered to a fresh replica. Oracle: accepted => every path cryptographically valid, contiguous, no self-hop; and for offset < 2 heartbeats independently computed work (u128, halving per hop after the first, only paths ending at the creator) >= parent_burnfee/offset - 1; acceptance at the smaller offset implies acceptance at the larger; offset >= 2 heartbeats needs no work. payout: histories of 4-10/20 blocks with routed fee-paying transactions and three ticket patterns; for every accepted block with a Fee transaction: each output goes to the ticket's key, to a hop recipient of a transaction in the blocks being paid (previous; and the one before when the previous had no ticket), or to the sender of a path-less transaction there; sum of outputs <= fees collected by those blocks (u128). distinct_nontrivial = distinct (offset bucket, path-shape multiset, margin sign) resp. (payout history digest).",
             real: &["BurnFee", "Transaction::generate_total_work/validate_routing_path/get_winning_routing_node", "Block::validate (work check, golden ticket, fee transaction)", "Block::find_winning_router", "Hop"],
             stubs: &["SimIo", "SimConfig", "vendored ahash"],
             assumptions: &["secp256k1/blake3 wrappers (verify) are trusted primitives of the oracle", "genesis period >> depth"],
@@ -214,6 +219,57 @@ impl Scenario for C08 {
             let parent = *chain.last().unwrap();
             let prec = w.recs[parent].clone();
             let ledger = w.ledger_at(parent);
+            if plan.boundary {
+                // the requirement is round(parent burn fee / elapsed ms): where the quotient's fraction is
+                // clearly above one half it rounds up, so work equal to the integer part is one nolan short
+                let user = 1usize;
+                let mine = ledger.unspent_of(&w.keys[user].pk);
+                let base_dt = (plan.dts[0] * HB / 1000).clamp(3, 2 * HB - 50);
+                let mut found: Option<(u64, u64)> = None;
+                for dt in base_dt..base_dt + 40 {
+                    let (q, rem) = (prec.burnfee / dt, prec.burnfee % dt);
+                    let frac_pm = rem * 1000 / dt;
+                    if dt < 2 * HB && q >= 2 && (600..=950).contains(&frac_pm) {
+                        found = Some((dt, q));
+                        break;
+                    }
+                }
+                let inp = mine.iter().find(|s| found.map_or(false, |(_, q)| s.amount > q + 10)).cloned();
+                if let (Some((dt, q)), Some(inp)) = (found, inp) {
+                    let tag = w.next_ts_tag();
+                    let mut tx = make_tx(&w.keys[user].clone(), &[inp.clone()], &[(w.keys[user].pk, inp.amount - q)], prec.ts + tag, &tag.to_le_bytes());
+                    add_path(&w, &mut tx, user, "valid-1");
+                    let gt = (prec.id + 1) % 2 == 0;
+                    let spec = BlockSpec { parent: prec.hash, ts: prec.ts + dt, txs: vec![tx], gt, creator: 0 };
+                    if let Ok(Ok(b)) = crate::util::guarded(|| build_block(&w.builder, &w.keys, spec)) {
+                        let bytes = b.serialize_for_net(saito_core::core::consensus::block::BlockType::Full);
+                        let mut n = Node::new(&w.cfg, &w.keys[1].clone());
+                        for i in &chain {
+                            let _ = n.add_block_bytes(&w.recs[*i].bytes.clone());
+                        }
+                        if n.tip().1 == prec.hash {
+                            let oc = n.add_block_bytes(&bytes).as_ref().map(outcome_of);
+                            r.steps += 1;
+                            r.fault("work_one_nolan_below_a_requirement_that_rounds_up", 1);
+                            trace.u64(dt).u64(q);
+                            if oc == Some(AddOutcome::Added { longest: true }) {
+                                r.violate(
+                                    "C08|accepted|insufficient-work|rounding-boundary",
+                                    format!("block at offset {} ms accepted with routing work {} although parent burn fee {} / {} ms = {}.{:03} rounds to {}", dt, q, prec.burnfee, dt, q, prec.burnfee % dt * 1000 / dt, q + 1),
+                                );
+                            }
+                            let mut d = Digest::new();
+                            d.u64(dt).u64(q % 97).u64(0xb0);
+                            r.nontrivial.push(d.get());
+                        }
+                    }
+                } else {
+                    r.probe("boundary_not_constructible");
+                }
+                r.state_hash = trace.get();
+                r.trace_hash = trace.get();
+                return r;
+            }
             // one tx set, re-used at both offsets
             let mut txs: Vec<Transaction> = vec![];
             let mut used: Vec<UtxoKey> = vec![];
